@@ -80,7 +80,7 @@ func NewClientOperation(o *Operation) ClientOperationTemplate {
 	for _, h := range o.Params.Headers.List {
 		c.Headers = append(c.Headers, ClientOperationHeaderTemplate{
 			Name:      h.V.Name,
-			FieldName: h.V.FieldName,
+			FieldName: Title(h.V.Name), // the field name NewHandlerHeaderParameter gives the request struct
 			Required:  h.V.Required,
 			Type:      h.V.Type,
 		})
